@@ -23,6 +23,7 @@ type Env struct {
 	ctr   *FuncContract
 	lets  map[string]ast.Expr
 	depth int
+	outer *Env // the environment outside the innermost quantifier
 }
 
 func (env *Env) clone() *Env {
@@ -246,6 +247,20 @@ func (e *Exec) evalIdent(env *Env, x *ast.Ident) (Val, error) {
 		}
 		env.depth++
 		defer func() { env.depth-- }()
+		if e.inQuant > 0 && env.outer != nil {
+			// a let that does not depend on the bound variables is evaluated outside the quantifier
+			root := env.outer
+			for root.outer != nil {
+				root = root.outer
+			}
+			saved := e.inQuant
+			e.inQuant = 0
+			v, err := e.eval(root, le)
+			e.inQuant = saved
+			if err == nil {
+				return v, nil
+			}
+		}
 		return e.eval(env, le)
 	}
 	// loop-carried SSA values (phis) and named values of the root frame
@@ -646,6 +661,7 @@ func (e *Exec) resolveType(env *Env, ex ast.Expr) (types.Type, error) {
 
 func (e *Exec) evalQuant(env *Env, q string, fl *ast.FuncLit) (Val, error) {
 	nenv := env.clone()
+	nenv.outer = env
 	var decls []string
 	var syms []string
 	var sorts []string
@@ -923,6 +939,14 @@ func (e *Exec) evalCall(env *Env, x *ast.CallExpr) (Val, error) {
 				return e.pureCallback(fv, args, resT), nil
 			}
 		}
+		// a function of the package (or, via a predicate's scope, of another one): its body evaluated as a pure function
+		if _, isSpec := specFuncs[id.Name]; !isSpec && e.W.preds[id.Name] == nil && env.fn != nil && env.fn.Pkg != nil {
+			if fobj, ok := env.fn.Pkg.Pkg.Scope().Lookup(id.Name).(*types.Func); ok {
+				if sf := e.W.prog.FuncValue(fobj); sf != nil && sf.Blocks != nil {
+					return e.evalPureCall(env, sf, x.Args)
+				}
+			}
+		}
 		if p, ok := e.W.preds[id.Name]; ok {
 			if len(x.Args) != len(p.Params) {
 				return Val{}, fmt.Errorf("pred %s: wrong number of arguments", p.Name)
@@ -1008,12 +1032,21 @@ func (e *Exec) evalCall(env *Env, x *ast.CallExpr) (Val, error) {
 		if h, ok := observers[sel.Sel.Name]; ok {
 			return h(e, env.cur, recv, args)
 		}
-		// interface method without an assumed contract: the same uninterpreted function the executor uses
-		if types.IsInterface(recv.T) {
-			if rt := methodResultType(recv.T, sel.Sel.Name); rt != nil {
-				key := fmt.Sprintf("(%s).%s", types.TypeString(recv.T, nil), sel.Sel.Name)
-				return e.uninterpInline("ext_"+cleanSym(funcKeyStr(key)), append([]Val{recv}, args...), rt), nil
+		// method without an assumed contract: the same uninterpreted function the executor uses
+		if rt := methodResultType(recv.T, sel.Sel.Name); rt != nil {
+			rtype := types.TypeString(recv.T, nil)
+			key := fmt.Sprintf("(%s).%s", rtype, sel.Sel.Name)
+			if !types.IsInterface(recv.T) {
+				// static method: receiver may be declared on the pointer type
+				if obj, _, _ := types.LookupFieldOrMethod(recv.T, true, nil, sel.Sel.Name); obj != nil {
+					if f, ok := obj.(*types.Func); ok {
+						if sig, ok := f.Type().(*types.Signature); ok && sig.Recv() != nil {
+							key = fmt.Sprintf("(%s).%s", types.TypeString(sig.Recv().Type(), nil), sel.Sel.Name)
+						}
+					}
+				}
 			}
+			return e.uninterpInline("ext_"+cleanSym(funcKeyStr(key)), append([]Val{recv}, args...), rt), nil
 		}
 		return Val{}, fmt.Errorf("unknown observer method %s", sel.Sel.Name)
 	}
@@ -1052,4 +1085,40 @@ func (e *Exec) deepEqual(st *State, a, b Val) Term {
 	name := "deq_" + mangleSort(so)
 	e.declFun(name, []string{so, so}, "Bool")
 	return app(name, e.asTerm(a), e.asTerm(b))
+}
+
+// evalPureCall evaluates a call to a side-effect free repository function inside a contract by
+// running its body symbolically on a scratch copy of the current state.
+func (e *Exec) evalPureCall(env *Env, fn *ssa.Function, argExprs []ast.Expr) (Val, error) {
+	if e.inQuant > 0 {
+		return Val{}, fmt.Errorf("call of %s under a quantifier", fn.Name())
+	}
+	sig := fn.Signature
+	var args []Val
+	for i, a := range argExprs {
+		var v Val
+		var err error
+		if i < sig.Params().Len() {
+			v, err = e.evalAs(env, a, sig.Params().At(i).Type())
+		} else {
+			v, err = e.eval(env, a)
+		}
+		if err != nil {
+			return Val{}, err
+		}
+		args = append(args, v)
+	}
+	var resT types.Type = sig.Results()
+	if sig.Results().Len() == 1 {
+		resT = sig.Results().At(0).Type()
+	}
+	scratch := env.cur.clone()
+	e.discovery++
+	nlog := len(e.wlog)
+	e.inlineStack = append(e.inlineStack, fn)
+	_, rr := e.runBody(fn, args, nil, scratch, "true", nil, 1)
+	e.inlineStack = e.inlineStack[:len(e.inlineStack)-1]
+	e.wlog = e.wlog[:nlog]
+	e.discovery--
+	return e.packResult(resT, rr.rets), nil
 }
